@@ -376,22 +376,210 @@ mod v_iface_egress6 {
         crate::vassert!(plen == 12, "prop:c10_ipv6_payload_length_matches_payload");
         crate::vassert!(sum1071(f, ip + 40, 12, pseudo6(f, ip, 58, 12)) == 0xffff, "prop:c10_icmpv6_checksum_valid");
     }
-    // @harness props=C10 cfg=KI6i tier=t to=600 mem=8 unwind=20 opts=nomem covers=1
+    // @harness props=C10 cfg=KI6i tier=t to=600 mem=8 unwind=20 opts=nomem,fs512 covers=1
     #[cfg(all(feature = "proto-ipv6", feature = "medium-ethernet"))]
     #[kani::proof]
     pub(crate) fn x1_eth_update() {
         x_direct(false, false);
     }
-    // @harness props=C10 cfg=KI6i tier=t to=600 mem=8 unwind=20 opts=nomem covers=1
+    // @harness props=C10 cfg=KI6i tier=t to=1200 mem=16 unwind=18 opts=nomem,fs200 covers=1
     #[cfg(all(feature = "proto-ipv6", feature = "medium-ethernet"))]
     #[kani::proof]
     pub(crate) fn x2_eth_direct() {
         x_direct(false, true);
     }
-    // @harness props=C10 cfg=KI6i tier=t to=600 mem=8 unwind=20 opts=nomem covers=1
+    // @harness props=C10 cfg=KI6i tier=t to=1200 mem=8 unwind=6 opts=nomem,fs200 covers=1
     #[cfg(all(feature = "proto-ipv6", feature = "medium-ethernet"))]
     #[kani::proof]
     pub(crate) fn x3_ip_direct() {
         x_direct(true, true);
+    }
+
+    #[cfg(feature = "proto-ipv6")]
+    #[inline(never)]
+    fn junk_marker(n: usize) -> usize {
+        let mut i = 0;
+        let mut acc = 0;
+        while i < n {
+            acc += i;
+            i += 1;
+        }
+        acc
+    }
+    #[cfg(feature = "proto-ipv6")]
+    #[inline(never)]
+    fn e1_sink(icmp: Icmpv6Repr, n: usize) -> usize {
+        match icmp {
+            Icmpv6Repr::EchoReply { ident, .. } => ident as usize,
+            Icmpv6Repr::EchoRequest { .. } => junk_marker(n),
+            Icmpv6Repr::Mld(_) => junk_marker(n) + 1,
+            _ => junk_marker(n) + 2,
+        }
+    }
+    #[cfg(feature = "proto-ipv6")]
+    #[inline(never)]
+    fn e2_sink(p: IpPayload, n: usize) -> usize {
+        match p {
+            IpPayload::Icmpv6(icmp) => e1_sink(icmp, n),
+            _ => junk_marker(n) + 3,
+        }
+    }
+    #[cfg(feature = "proto-ipv6")]
+    #[inline(never)]
+    fn e3_sink(p: Packet, n: usize) -> usize {
+        match p.payload() {
+            IpPayload::Icmpv6(icmp) => e1_sink(*icmp, n),
+            _ => junk_marker(n) + 3,
+        }
+    }
+    #[cfg(feature = "proto-ipv6")]
+    fn e_case(which: u8) {
+        let data: [u8; 4] = kani::any();
+        let ident: u16 = kani::any();
+        let n: usize = kani::any();
+        let icmp = Icmpv6Repr::EchoReply { ident, seq_no: 2, data: &data[..] };
+        let r = if which == 1 {
+            e1_sink(icmp, n)
+        } else if which == 2 {
+            e2_sink(IpPayload::Icmpv6(icmp), n)
+        } else {
+            let ip = Ipv6Repr { src_addr: Ipv6Address::from(LL), dst_addr: Ipv6Address::from(GL), next_header: IpProtocol::Icmpv6, payload_len: 12, hop_limit: 64 };
+            e3_sink(Packet::new_ipv6(ip, IpPayload::Icmpv6(icmp)), n)
+        };
+        kani::cover!(r == 7, "reached");
+        assert!(r == ident as usize, "prop:c10_x");
+    }
+    // @harness props=C10 cfg=KI6i tier=t to=300 mem=4 unwind=5 opts=nomem covers=1
+    #[cfg(feature = "proto-ipv6")]
+    #[kani::proof]
+    pub(crate) fn e1() {
+        e_case(1);
+    }
+    // @harness props=C10 cfg=KI6i tier=t to=300 mem=4 unwind=5 opts=nomem covers=1
+    #[cfg(feature = "proto-ipv6")]
+    #[kani::proof]
+    pub(crate) fn e2() {
+        e_case(2);
+    }
+    // @harness props=C10 cfg=KI6i tier=t to=300 mem=4 unwind=5 opts=nomem covers=1
+    #[cfg(feature = "proto-ipv6")]
+    #[kani::proof]
+    pub(crate) fn e3() {
+        e_case(3);
+    }
+    // @harness props=C10 cfg=KI6i tier=t to=300 mem=4 unwind=5 opts=nomem,fs512 covers=1
+    #[cfg(feature = "proto-ipv6")]
+    #[kani::proof]
+    pub(crate) fn e3fs() {
+        e_case(3);
+    }
+
+    #[cfg(feature = "proto-ipv6")]
+    #[inline(never)]
+    fn e1_ref(icmp: &Icmpv6Repr, n: usize) -> usize {
+        match *icmp {
+            Icmpv6Repr::EchoReply { ident, .. } => ident as usize,
+            Icmpv6Repr::EchoRequest { .. } => junk_marker(n),
+            Icmpv6Repr::Mld(_) => junk_marker(n) + 1,
+            _ => junk_marker(n) + 2,
+        }
+    }
+    // @harness props=C10 cfg=KI6i tier=t to=300 mem=4 unwind=5 opts=nomem covers=1
+    #[cfg(feature = "proto-ipv6")]
+    #[kani::proof]
+    pub(crate) fn e0_local() {
+        let data: [u8; 4] = kani::any();
+        let ident: u16 = kani::any();
+        let n: usize = kani::any();
+        let icmp = Icmpv6Repr::EchoReply { ident, seq_no: 2, data: &data[..] };
+        let r = match icmp {
+            Icmpv6Repr::EchoReply { ident, .. } => ident as usize,
+            Icmpv6Repr::EchoRequest { .. } => junk_marker(n),
+            Icmpv6Repr::Mld(_) => junk_marker(n) + 1,
+            _ => junk_marker(n) + 2,
+        };
+        kani::cover!(r == 7, "reached");
+        assert!(r == ident as usize, "prop:c10_x");
+    }
+    // @harness props=C10 cfg=KI6i tier=t to=300 mem=4 unwind=5 opts=nomem covers=1
+    #[cfg(feature = "proto-ipv6")]
+    #[kani::proof]
+    pub(crate) fn e0_ref() {
+        let data: [u8; 4] = kani::any();
+        let ident: u16 = kani::any();
+        let n: usize = kani::any();
+        let icmp = Icmpv6Repr::EchoReply { ident, seq_no: 2, data: &data[..] };
+        let r = e1_ref(&icmp, n);
+        kani::cover!(r == 7, "reached");
+        assert!(r == ident as usize, "prop:c10_x");
+    }
+    // @harness props=C10 cfg=KI6i tier=t to=300 mem=4 unwind=5 opts=nomem covers=1
+    #[cfg(feature = "proto-ipv6")]
+    #[kani::proof]
+    pub(crate) fn e0_size() {
+        let a = core::mem::size_of::<Icmpv6Repr>();
+        let b = core::mem::size_of::<IpPayload>();
+        let c = core::mem::size_of::<Packet>();
+        let d = core::mem::size_of::<NdiscRepr>();
+        let e = core::mem::size_of::<MldRepr>();
+        kani::cover!(true, "reached");
+        assert!(a == 1 && b == 1 && c == 1 && d == 1 && e == 1, "prop:c10_sizes");
+    }
+
+    // @harness props=C10 cfg=KI6i tier=t to=600 mem=8 unwind=6 opts=nomem covers=1
+    #[cfg(feature = "proto-ipv6")]
+    #[kani::proof]
+    pub(crate) fn m1_emit() {
+        let data: [u8; 4] = kani::any();
+        let ident: u16 = kani::any();
+        let icmp = Icmpv6Repr::EchoReply { ident, seq_no: 2, data: &data[..] };
+        let mut buf = [0u8; 12];
+        icmp.emit(&Ipv6Address::from(LL), &Ipv6Address::from(GL), &mut Icmpv6Packet::new_unchecked(&mut buf[..]), &ChecksumCapabilities::default());
+        kani::cover!(buf[4] == 7, "reached");
+        assert!(get16(&buf, 4) == ident, "prop:c10_x");
+    }
+    // @harness props=C10 cfg=KI6i tier=t to=600 mem=8 unwind=6 opts=nomem covers=1
+    #[cfg(feature = "proto-ipv6")]
+    #[kani::proof]
+    pub(crate) fn m2_emit_payload() {
+        let data: [u8; 4] = kani::any();
+        let ident: u16 = kani::any();
+        let icmp = Icmpv6Repr::EchoReply { ident, seq_no: 2, data: &data[..] };
+        let ip = Ipv6Repr { src_addr: Ipv6Address::from(LL), dst_addr: Ipv6Address::from(GL), next_header: IpProtocol::Icmpv6, payload_len: 12, hop_limit: 64 };
+        let packet = Packet::new_ipv6(ip, IpPayload::Icmpv6(icmp));
+        let mut buf = [0u8; 12];
+        let mut caps = DeviceCapabilities::default();
+        caps.max_transmission_unit = 1500;
+        packet.emit_payload(&IpRepr::Ipv6(ip), &mut buf[..], &caps);
+        kani::cover!(buf[4] == 7, "reached");
+        assert!(get16(&buf, 4) == ident, "prop:c10_x");
+    }
+
+    // @harness props=C10 cfg=KI6i tier=t to=1200 mem=16 unwind=6 opts=nomem covers=1
+    #[cfg(all(feature = "proto-ipv6", feature = "medium-ethernet", feature = "multicast"))]
+    #[kani::proof]
+    pub(crate) fn x4_mld_direct() {
+        let caps = ChecksumCapabilities::default();
+        let now = Instant::from_micros(NOW_US);
+        let mut dev0 = NullDev { medium: Medium::Ethernet, mtu: MTU + 14, checksum: caps };
+        let mut iface = Interface::new(Config::new(HardwareAddress::Ethernet(EthernetAddress(OWN_MAC))), &mut dev0, now);
+        iface.inner.ip_addrs.push(IpCidr::new(IpAddress::Ipv6(Ipv6Address::from(LL)), 64)).unwrap();
+        iface.inner.ip_addrs.push(IpCidr::new(IpAddress::Ipv6(Ipv6Address::from(GL)), 64)).unwrap();
+        let mut group = [0u8; 16];
+        group[0] = 0xff;
+        group[1] = 0x02;
+        group[14] = kani::any();
+        group[15] = kani::any();
+        let recs = [MldAddressRecordRepr::new(MldRecordType::ChangeToInclude, Ipv6Address::from(group))];
+        let pkt = iface.inner.mldv2_report_packet(&recs[..]).unwrap();
+        let mut tx = TxState::<96>::new();
+        let r = iface.inner.dispatch_ip(CapTx { st: &mut tx }, PacketMeta::default(), pkt, &mut iface.fragmenter);
+        kani::cover!(tx.frames == 1 && group[15] == 0xaa, "captured");
+        crate::vassert!(r.is_ok() && tx.frames == 1 && tx.len0 == 90, "prop:c10_reply_handed_to_device_exactly_once");
+        let f = &tx.buf0;
+        check_eth6(f, &mcast_mac(&ALL_MLDV2));
+        let plen = check_ipv6(f, 14, tx.len0, MTU, 0, &LL, &ALL_MLDV2);
+        crate::vassert!(plen == 36, "prop:c10_ipv6_payload_length_matches_payload");
+        crate::vassert!(sum1071(f, 62, 28, pseudo6(f, 14, 58, 28)) == 0xffff, "prop:c10_icmpv6_checksum_valid");
     }
 }
